@@ -15,12 +15,30 @@
 (***************************************************************************)
 EXTENDS XiXiKV
 
-CONSTANT Focus     \* "any", or "merge": process deaths are generated only while a Merge or an adoption is under way
-VARIABLE hist
-gvars == <<vars, hist>>
+CONSTANT Focus     \* "any"; "merge": process deaths are generated only while a Merge or an adoption is under way;
+                   \* "goal": no generator guard at all (breadth-first search for a goal)
+VARIABLES hist,
+          marks,      \* ghost: number of merges that were completed (marker written)
+          livemarks,  \* ghost: ... of which rewrote at least one record
+          adopts,     \* ghost: number of Opens that adopted a finished merge
+          cutmerges,  \* ghost: number of process deaths that interrupted the first Merge after it had rewritten a record
+          adoptcuts,  \* ghost: number of process deaths inside an adoption that had taken at least one step
+          giveups,    \* ghost: number of merges that gave up (output would reach a file that did not take part)
+          leftkeys    \* ghost: the keys whose records the interrupted first Merge had rewritten into the directory it left behind
+gvars == <<vars, hist, marks, livemarks, adopts, cutmerges, adoptcuts, giveups, leftkeys>>
+GView == <<vars, marks, livemarks, adopts, cutmerges, adoptcuts, giveups, leftkeys>>      \* (goal search: states are identified without their history)
 
 S(name, k, v) == [a |-> name, k |-> k, v |-> v, x |-> <<>>]
-L(name, k, v) == hist' = Append(hist, S(name, k, v))
+Ghost(name) == /\ marks' = IF name = "mergemark" THEN marks + 1 ELSE marks
+               /\ livemarks' = IF name = "mergemark" /\ mdir.hint # <<>> THEN livemarks + 1 ELSE livemarks
+               /\ adopts' = IF name = "openload" /\ adopt.nm > 0 THEN adopts + 1 ELSE adopts
+               /\ cutmerges' = IF name = "crash" /\ merge.on /\ marks = 0 /\ mdir.hint # <<>> THEN cutmerges + 1 ELSE cutmerges
+               /\ adoptcuts' = IF name = "crash" /\ st = "adopt" /\ (adopt.ph \in {"unmark", "rmdir"} \/ (adopt.ph = "files" /\ adopt.i >= 1))
+                               THEN adoptcuts + 1 ELSE adoptcuts
+               /\ giveups' = IF name = "mergescan" /\ merge.on /\ ~merge'.on THEN giveups + 1 ELSE giveups
+               /\ leftkeys' = IF name = "crash" /\ merge.on /\ marks = 0 /\ mdir.hint # <<>>
+                              THEN {mdir.hint[i].k : i \in 1..Len(mdir.hint)} ELSE leftkeys
+L(name, k, v) == hist' = Append(hist, S(name, k, v)) /\ Ghost(name)
 
 \* what a power failure left of every file: per file in ascending id order the number of whole records kept
 \* and the number it held (x = kept_1, total_1, kept_2, total_2, ...); k = 1 if the active file ends in a torn record
@@ -32,12 +50,12 @@ CutLabel == LET fs == AscSeq(Fids) IN
 ScanKind == IF merge.fi > Len(merge.files) THEN 2
             ELSE IF merge.ri > Len(dir[merge.files[merge.fi]]) THEN 1 ELSE 0
 
-GInit == Init /\ hist = <<>>
+GInit == Init /\ hist = <<>> /\ marks = 0 /\ livemarks = 0 /\ adopts = 0 /\ cutmerges = 0 /\ adoptcuts = 0 /\ giveups = 0 /\ leftkeys = {}
 
 \* Simulation mode picks successors at random; faults, restarts and merges of a database that holds nothing yet
 \* teach little, so the generator takes them only once the run is warm (this restricts which behaviours are
 \* generated, not what the engine may do: the exhaustive configurations of XiXiKV have no such guard).
-Warm == nops >= 3 \/ nfaults > 0 \/ nrestarts > 0 \/ st # "open"
+Warm == Focus = "goal" \/ nops >= 3 \/ nfaults > 0 \/ nrestarts > 0 \/ st # "open"
 CrashHere == Focus # "merge" \/ merge.on \/ st = "adopt"
 Losable == \E f \in Fids : durable[f] < Len(dir[f])
 
@@ -57,7 +75,7 @@ GCore ==
   \/ MergeMark /\ L("mergemark", 0, 0)
   \/ Warm /\ CloseCall /\ L("close", 0, 0)
   \/ Warm /\ CrashHere /\ Crash /\ L("crash", 0, 0)
-  \/ Losable /\ PowerLoss /\ hist' = Append(hist, CutLabel)
+  \/ Losable /\ PowerLoss /\ hist' = Append(hist, CutLabel) /\ Ghost("powerloss")
   \/ AdoptStep /\ L("adoptstep", 0, 0)
   \/ OpenLoad /\ L("openload", 0, 0)
   \/ Retry /\ L("retry", 0, 0)
@@ -68,4 +86,55 @@ GSpec == GInit /\ [][GNext]_gvars
 
 \* the generator must not wander outside what the exhaustive configurations established
 GenOK == recok /\ st # "failed"
+
+(* ---- goals --------------------------------------------------------------------------------------------- *)
+(* TLC searches breadth-first for the shortest behaviour that reaches each goal (the goal's negation is given *)
+(* as the invariant; the counterexample is the behaviour).  Each goal is a corner of the mechanism that the    *)
+(* random walks of simulation mode seldom reach; lib/mbt.py lists the bounded constants used for each.        *)
+\* a process death inside adoption, after the first rewritten file was renamed and before the second
+\* (the tombstones were merged away: a deleted key is then absent only because no record of it is left)
+NoTombstones == \A f \in Fids : \A i \in 1..Len(dir[f]) : dir[f][i].t # DEL
+OncePut(k) == \E j \in 1..Len(acked) : k \in DOMAIN acked[j].w /\ acked[j].w[k] # Nil
+G_AdoptHalf == st = "down" /\ nfaults > 0 /\ mdir.ex /\ mdir.marker.nm # 0 /\ 0 \notin DOMAIN mdir.files /\ 1 \in DOMAIN mdir.files
+\* ... after the hint file was moved, before the marker is removed
+G_AdoptHintMoved == st = "down" /\ nfaults > 0 /\ mdir.ex /\ mdir.marker.nm # 0 /\ ~mdir.hintThere /\ dhint # <<>> /\ livemarks = 1
+\* ... after the marker was removed, before the directory is
+G_AdoptUnmarked == st = "down" /\ nfaults > 0 /\ mdir.ex /\ mdir.marker.nm = 0 /\ dhint # <<>> /\ adopts = 0 /\ marks = 1
+\* two process deaths inside one adoption (the second during the retry)
+G_AdoptTwice == st = "down" /\ adoptcuts = 2 /\ livemarks = 1 /\ mdir.ex /\ mdir.marker.nm # 0 /\ 1 \in DOMAIN mdir.files
+\* a Merge interrupted by a process death leaves an unmarked directory; a later Merge is completed and adopted
+G_LeftoverThenAdopt == cutmerges = 1 /\ marks = 1 /\ livemarks = 1 /\ adopts = 1 /\ st = "open" /\ Quiescent
+                       /\ NoTombstones /\ \E k \in leftkeys : index[k] = NoPos
+\* an adopted merge, then a merge during which nothing is live, adopted too
+G_EmptyMergeAfterAdopt == marks = 2 /\ livemarks = 1 /\ adopts = 2 /\ st = "open" /\ dhint = <<>> /\ NoTombstones /\ \A k \in Keys : index[k] = NoPos
+\* a power failure that tears a record of a file other than the first
+G_TornLaterFile == st = "down" /\ HasTorn /\ active >= 1
+\* a process death that leaves an early-flushed piece of a batch without its finished record in a rotated file
+G_BatchPieceOrphan == st = "down" /\ nfaults = 1 /\ \E f \in Fids : f < active /\ \E i \in 1..Len(dir[f]) :
+                         dir[f][i].bt # 0 /\ ~\E g \in Fids : \E j \in 1..Len(dir[g]) : dir[g][j].t = FIN /\ dir[g][j].bt = dir[f][i].bt
+\* a merge that gives up (its output would reach a file that did not take part), then one that is completed and adopted
+G_GiveUpThenAdopt == nfaults = 0 /\ giveups = 1 /\ marks = 1 /\ livemarks = 1 /\ adopts = 1 /\ st = "open" /\ Quiescent /\ ~merge.on
+\* a power failure after a merge was marked, with acknowledged mutations beyond the durable floor
+G_PowerAfterMark == st = "down" /\ nfaults = 1 /\ marks = 1 /\ adopts = 0 /\ mdir.marker.nm # 0 /\ Len(acked) > floor /\ floor > 0
+\* a delete that overtakes the merge scan: after the adoption the log holds a tombstone whose victim is gone
+G_OrphanTombstone == adopts = 1 /\ st = "open" /\ Quiescent /\ \E f \in Fids : \E i \in 1..Len(dir[f]) :
+                        dir[f][i].t = DEL /\ ~\E g \in Fids : \E j \in 1..Len(dir[g]) : dir[g][j].t = PUT /\ dir[g][j].k = dir[f][i].k
+\* a committed Sync batch followed by an unflushed Put, then a power failure
+G_SyncBatchThenLoss == st = "down" /\ nfaults = 1 /\ floor >= 1 /\ Len(acked) > floor
+                       /\ \E f \in Fids : \E i \in 1..Len(dir[f]) : dir[f][i].t = FIN
+\* a second merge cycle: two merges that rewrote records, both adopted, with writes in between
+G_TwoCycles == livemarks = 2 /\ adopts = 2 /\ st = "open" /\ Quiescent /\ NoTombstones /\ \E k \in Keys : index[k] = NoPos /\ OncePut(k)
+NotG_TwoCycles == ~G_TwoCycles
+NotG_AdoptHalf == ~G_AdoptHalf
+NotG_AdoptHintMoved == ~G_AdoptHintMoved
+NotG_AdoptUnmarked == ~G_AdoptUnmarked
+NotG_AdoptTwice == ~G_AdoptTwice
+NotG_LeftoverThenAdopt == ~G_LeftoverThenAdopt
+NotG_EmptyMergeAfterAdopt == ~G_EmptyMergeAfterAdopt
+NotG_TornLaterFile == ~G_TornLaterFile
+NotG_BatchPieceOrphan == ~G_BatchPieceOrphan
+NotG_GiveUpThenAdopt == ~G_GiveUpThenAdopt
+NotG_PowerAfterMark == ~G_PowerAfterMark
+NotG_OrphanTombstone == ~G_OrphanTombstone
+NotG_SyncBatchThenLoss == ~G_SyncBatchThenLoss
 =============================================================================
